@@ -25,6 +25,8 @@ func main() {
 		cmdRun(os.Args[2:])
 	case "comments":
 		cmdComments(os.Args[2:])
+	case "enum":
+		cmdEnum(os.Args[2:])
 	case "rules":
 		cmdRules(os.Args[2:])
 	default:
